@@ -10,7 +10,8 @@
 (*   evuse   g e        an appender is handed event object e               *)
 (*   sinkstart g arr / sinkend g    a sink Write call on bytes in arr      *)
 (* Invariants (the trace forms of PoolDiscipline / NoAliasedReuse):        *)
-(*   no buffer or event is taken while somebody holds it;                  *)
+(*   no buffer or event is taken while somebody holds it, and a buffer     *)
+(*   comes out of the pool empty (whatever happened to its last user);     *)
 (*   no sink write starts on, or is in flight on, the backing array of a   *)
 (*   buffer that is pooled or held by another goroutine;                   *)
 (*   no appender is handed an event object that is pooled.                 *)
@@ -42,7 +43,8 @@ Flag(cond, name) == bad' = IF bad = "" /\ cond THEN name ELSE bad
 Foreign(g) == { arrOf[b] : b \in { x \in DOMAIN arrOf : Get(holder, x) # g } }
 
 BufGet == /\ E.ev = "bufget"
-          /\ Flag(Get(holder, E.b) # 0, "buffer taken while held")
+          /\ Flag(Get(holder, E.b) # 0 \/ ("len" \in DOMAIN E /\ E.len > 0),
+                  IF Get(holder, E.b) # 0 THEN "buffer taken while held" ELSE "buffer comes out of the pool with content")
           /\ holder' = Set(holder, E.b, E.g)
           /\ UNCHANGED <<arrOf, evHolder, inflight>>
 BufPut == /\ E.ev = "bufput"
